@@ -177,7 +177,19 @@ func surface(site string, mem memory.Memory, mdl memModel, off model.Addr, c mem
 				if ex.Width() != expr.Width(w) {
 					return &eng.Fail{Sig: site + ".Load width", What: fmt.Sprintf("%s returned width %d: %s", desc, ex.Width(), ir.Show(ex)), Case: c}
 				}
-				for _, v := range memVals {
+				vals := memVals
+				if !hasLoad(ex) {
+					sym := false
+					for i := 0; i < w; i++ {
+						if _, isC := mdl[a+i].val.(expr.Const); !isC {
+							sym = true
+						}
+					}
+					if !sym {
+						vals = memVals[:1] // closed expression and constant model bytes: one valuation decides
+					}
+				}
+				for _, v := range vals {
 					env := memEnv(v)
 					var got *big.Int
 					p, stack := eng.Catch(func() { got = ir.Eval(ex, env) })
@@ -225,6 +237,18 @@ func surface(site string, mem memory.Memory, mdl memModel, off model.Addr, c mem
 		return &eng.Fail{Sig: site + ".Blocks wrong", What: fmt.Sprintf("%s.Blocks() = %s %s, expected %s", site, got, bad, exp), Case: c}
 	}
 	return nil
+}
+
+func hasLoad(e expr.Expr) bool {
+	switch x := e.(type) {
+	case expr.RegLoad, expr.MemLoad:
+		return true
+	case expr.Binary:
+		return hasLoad(x.Arg1()) || hasLoad(x.Arg2())
+	case expr.Less:
+		return hasLoad(x.Arg1()) || hasLoad(x.Arg2()) || hasLoad(x.ExprTrue()) || hasLoad(x.ExprFalse())
+	}
+	return false
 }
 
 func hexBytes(s string) []byte {
